@@ -1607,6 +1607,7 @@ func (fr *Frame) linkFuncValue(f *ssa.Function) {
 	}
 	vc.wf[key] = true
 	id := vc.funcID(f)
+	vc.fact(fmt.Sprintf("(not (= %s %s))", id, vc.S.Zero(f.Signature))) // a declared function is not the nil function value
 	vc.tagsFn = append(vc.tagsFn, id)
 	for _, o := range vc.tagsFn[:len(vc.tagsFn)-1] {
 		vc.fact(fmt.Sprintf("(not (= %s %s))", id, o))
